@@ -26,7 +26,10 @@ RULE = ("kind ns (modelled): a seeded random parser of 1-3 typed arguments under
         "keeps its '__path__' entry), from argv, object, string and a --cfg file (channel cfgfile, also for the multi-option "
         "parsers). 30 % of the multi-option cases are preceded, in the same process, by a FAILED parse_args on another parser of the "
         "same shape (subclass options incl. their None-default init_args given, then a --cfg that is missing / broken / names an "
-        "unknown key). Every x case also runs the dump leg: dump(cfg), parse_string of it compared with cfg modulo '__path__' "
+        "unknown key). 20 % of the x cases are containers (Dict[str,_], List, Tuple[_, ...], "
+        "Tuple[_, int], Dict[str, List[_]]) whose items are a registered / restricted / path / Enum type or a class spec, bare "
+        "or Optional, with None items next to real ones, and for class specs a declared default holding entries under the same "
+        "keys (same or another class, its own init_args); all channels. Every x case also runs the dump leg: dump(cfg), parse_string of it compared with cfg modulo '__path__' "
         "entries, and the dump of that compared byte for byte. non-trivial = the first parse is accepted and some value changed representation or "
         "is a container; distinct = distinct (parser, input)")
 TRUSTED = [
@@ -563,12 +566,85 @@ def gen_x_path(rng):
     return case
 
 
+# ---- containers whose items are Optional[registered / restricted / path type] or (Optional) class specs ----------------
+ITEM_KEYS = ["pre", "post", "a", "b"]
+
+
+def spec_value(rng, fam, cls=None, full_path=None):
+    cls = cls or rng.choice(sorted(fam))
+    ps = [q for q in sorted(fam[cls]) if rng.random() < 0.4]
+    spec = [(S("class_path"), S(("c10_classes." + cls) if (full_path if full_path is not None else rng.random() < 0.6) else cls))]
+    if ps or rng.random() < 0.3:
+        spec.append((S("init_args"), D([(S(q), param_value(rng, fam[cls][q])) for q in ps])))
+    return D(spec), cls
+
+
+def gen_x_nested(rng):
+    use_sub = rng.random() < 0.5
+    optional = rng.random() < 0.7
+    if use_sub:
+        base = rng.choice(sorted(FAMILIES))
+        fam = FAMILIES[base]
+        elem = ["sub", base]
+        mk = lambda: spec_value(rng, fam)[0]  # noqa: E731
+    else:
+        leaf, vals = rng.choice([lv for lv in X_LEAVES if lv[0][0] not in ("data", "sub")])
+        elem = leaf
+        mk = lambda: rng.choice(vals)  # noqa: E731
+    et = ["union", [elem, NON]] if optional else elem
+    item = lambda: NONE if optional and rng.random() < 0.4 else mk()  # noqa: E731
+    shape = rng.choice(["dict", "dict", "list", "tuplevar", "tuple", "dictlist"])
+    dflt = NONE
+    if shape == "dict":
+        t = ["dict", False, et]
+        keys = rng.sample(ITEM_KEYS, rng.randint(1, 3))
+        v = D([(S(k), item()) for k in keys])
+        if use_sub and rng.random() < 0.6:
+            # a declared default with entries under the same keys (same or another class, its own init_args)
+            dkeys = [k for k in ITEM_KEYS if k in keys or rng.random() < 0.3]
+            dflt = D([(S(k), NONE if optional and rng.random() < 0.3 else spec_value(rng, fam, full_path=True)[0]) for k in dkeys])
+            if rng.random() < 0.5:           # same class as the input for one common key, other init_args
+                for kv in v[1]:
+                    if kv[1][0] == "dict":
+                        cls = kv[1][1][0][1][1].split(".")[-1]
+                        dflt = D([(a, b) for a, b in dflt[1] if a != kv[0]] + [(kv[0], spec_value(rng, fam, cls=cls, full_path=True)[0])])
+                        break
+    elif shape == "list":
+        t = ["list", et]
+        v = L([item() for _ in range(rng.randint(1, 3))])
+        if use_sub and rng.random() < 0.4:
+            dflt = L([spec_value(rng, fam, full_path=True)[0] for _ in range(rng.randint(1, 2))])
+    elif shape == "tuplevar":
+        t = ["tuplevar", et]
+        v = L([item() for _ in range(rng.randint(1, 3))])
+    elif shape == "tuple":
+        t = ["tuple", [et, INT]]
+        v = L([item(), I(3)])
+    else:
+        t = ["dict", False, ["list", et]]
+        v = D([(S(k), L([item() for _ in range(rng.randint(1, 2))])) for k in rng.sample(ITEM_KEYS, rng.randint(1, 2))])
+    ch = "object" if has_obj(v) else rng.choice(["object", "args", "string", "string", "cfgfile"])
+    case = {"kind": "x", "decls": [{"key": "k", "ty": t, "default": dflt}], "channel": ch}
+    if ch == "object":
+        case["input"] = D([(S("k"), v)])
+    elif ch == "args":
+        case["input"] = ["--k=" + render(v)]
+    elif ch == "string":
+        case["input"] = "k: " + render(v) + "\n"
+    else:
+        case["files"] = {"main.yaml": "k: " + render(v) + "\n"}
+        case["input"] = ["--cfg=main.yaml"]
+    return case
+
+
 def gen_x(rng):
     r = rng.random()
     if r < 0.3:
         return gen_x_multi(rng)
     if r < 0.4:
         return gen_x_path(rng)
+    if r < 0.6:
+        return gen_x_nested(rng)
     r = rng.random()
     if r < 0.25:
         # a modelled type through the argv / string channel, now and then with a list append
@@ -667,7 +743,7 @@ def curated_x():
 
 
 def generate(rng, tier):
-    n_ns, n_x = (1800, 500) if tier == "quick" else (16000, 4000)
+    n_ns, n_x = (1800, 500) if tier == "quick" else (16000, 3200)
     cases = curated() + curated_x()
     cases += [gen_ns(rng) for _ in range(n_ns)]
     cases += [gen_x(rng) for _ in range(n_x)]
